@@ -16,7 +16,8 @@ Definition slack_ms := 3000.
 Record case := mkCase {
   c_phase : Z;       (* 0 idle, 1 mid-sync, 2 mid-reorganisation, 3 no peer connected, 4 never started,
                         5 component scenario: block manager stopped in the middle of a rollback,
-                        6 idle and synced, a backlog of filters in the batch writer *)
+                        6 idle and synced, a backlog of filters in the batch writer,
+                        7 synced, one peer has stopped reading, an all-peers query in flight *)
   c_peers : Z;       (* peers connected when Stop began *)
   c_silent : Z;      (* bit mask: 1 getdata, 2 getcfilters, 4 inv, 8 getcfheaders, 16 getheaders, 32 getcfcheckpt *)
   c_persist : bool;
